@@ -90,6 +90,9 @@ func genFsCalls(t *rapid.T, kinds []string, whens []string, minN, maxN int) []fs
 			if fc.Kind == "notify" {
 				fc.Plan.Size = 0
 			}
+			if fc.Kind == "call" {
+				fc.Plan.TagFalse = rapid.IntRange(0, 3).Draw(t, l+"tagfalse") == 0
+			}
 			if fc.Plan.Gate {
 				fc.Plan.WatchCtx = rapid.Bool().Draw(t, l+"watch")
 			}
